@@ -750,7 +750,7 @@ def run(ctx):
                "and pairwise distinctness of every id the servers saw")
     run_corpus(ctx)
     r = ctx.rng("apis")
-    napis = ctx.n(3, 24)
+    napis = ctx.n(4, 24)
     for a in range(napis):
         spec = gen_spec(r, must_have=SINGLE_DEFECTS if a % 2 == 0 else SINGLE_DEFECTS[::-1])
         files = build_files(spec)
@@ -764,7 +764,7 @@ def run(ctx):
             lists.append((s, "violation:" + inject(r, spec, s, which)))
         t2(ctx, api, aj, spec, lists, f"api{a}")
         # T3 on a sub-list: accepted ones reach call time
-        pick = [x for x in lists if x[1] == "valid"][:ctx.n(2, 5)]
+        pick = [x for x in lists if x[1] == "valid"][:ctx.n(3, 5)]
         rest = [x for x in lists if x[1] != "valid"]
         r.shuffle(rest)
         pick += rest[:ctx.n(7, 20)]
